@@ -15,9 +15,10 @@ from harness.common.rng import Rng
 from harness.props import in_util
 
 PROP = "C11"
-LEAN_MODULES = ["LunaVerif.Props.C11"]
+LEAN_MODULES = ["LunaVerif.Props.C11", "LunaVerif.Lemmas.C11Host", "LunaVerif.Lemmas.C11Refine"]
 DRIVER = "Driver/C11.lean"
-REQUIRED_THEOREMS = ["inv_reachable", "packet_len_le_mps", "retry_repeats_pid_and_payload", "nak_when_no_packet",
+REQUIRED_THEOREMS = ["in_exactly_once", "host_data_is_prefix", "at_most_two_packets_buffered", "J_reachable",
+                     "inv_reachable", "packet_len_le_mps", "retry_repeats_pid_and_payload", "nak_when_no_packet",
                      "send_packet_streams_buffer", "read_buffer_frozen", "pid_flips_only_with_new_packet"]
 RULE = ("cases = max_packet_size in {1,2,3,8,64,512} x mode; modes: 'host' (legal host + producer with transfers of "
         "0.5..3 packets incl. exact multiples, flush pulses, lost/late/foreign ACKs, tokens to other endpoints), "
@@ -27,16 +28,19 @@ RULE = ("cases = max_packet_size in {1,2,3,8,64,512} x mode; modes: 'host' (lega
 ASSUMPTIONS = [
     "max_packet_size >= 1",
     "modelled code = /repo with fixes 778b997 (ACK gate), aa3de3e (reset_sequence vs packet_ready), 427cb3f (read address 0 in WAIT_TO_SEND)",
-    "host environment of the exactly-once statements: an ACK strobe (with active & is_in) only after a completely "
-    "transmitted packet and before the next token; ack and new_token never in the same cycle; discard = 0; "
-    "reset_sequence = 0 (its effect is C14's subject and is checked separately)",
+    "environment of in_exactly_once (LegalInEnv): discard = 0 and reset_sequence = 0 in every cycle (reset_sequence is "
+    "C14's subject and is checked separately); tokens, handshakes, flush, producer and packet_stream.ready are "
+    "arbitrary (the FSM takes an ACK only in WAIT_FOR_ACK, which is entered only by completing a packet); the ghost "
+    "host receives every completed packet and keeps it iff its PID differs from the last kept one (DATA0 expected first)",
+    "the monitor's closed-loop host additionally issues an ACK strobe (with active & is_in) only after a completely "
+    "transmitted packet and before the next token; ack and new_token never in the same cycle",
 ]
-PARTIAL = ("in_exactly_once (hostAccepted ++ pending = producerAccepted as a refinement over ghost host state) and "
-           "transfer_ends_short_or_zlp are NOT proved; proved are the structural invariant for all histories without "
-           "discard, packet length <= mps, NAK exactly in WAIT_FOR_DATA with an empty read buffer, the frozen read buffer / "
-           "same PID over any un-ACKed segment, transmission = read buffer contents for every ready schedule, and that "
-           "the PID flips only when a new packet is staged.  Exactly-once, in-order delivery and transfer boundaries are "
-           "checked by the host-view monitor on the real gateware on every run.")
+PARTIAL = ("transfer_ends_short_or_zlp (every last-marked byte is followed by a short packet or a ZLP before data of the "
+           "next transfer) is NOT proved; it is checked by the host-view monitor on the real gateware on every run "
+           "(sig transfer-boundary).  Proved: in_exactly_once (hostAccepted ++ pending(state) = producerAccepted at every "
+           "cycle of every history with discard = reset_sequence = 0, flush included), its corollaries, and the "
+           "packet-level statements (length <= mps, NAK iff no packet, retry repeats PID and payload, transmission = read "
+           "buffer).")
 
 NAMES_IN = ["active", "is_in", "ready_for_response", "new_token", "ack", "s_valid", "s_payload", "s_last", "flush",
             "discard", "generate_zlps", "reset_sequence", "start_with_data1", "tx_ready"]
